@@ -82,6 +82,21 @@ impl Property for C17 {
         for len in 0..=64usize {
             push(true, (0..len).map(|i| (i as u8).wrapping_mul(11).wrapping_add(1)).collect());
         }
+        // wrong-length inputs that other ed25519 APIs would accept: seed || public key (64-byte keypair
+        // form), seed || seed, seed with a prefix or suffix byte, the 32-byte public key followed by the seed
+        for s in crate::keys::pool().ed.iter() {
+            let pk = crypto::ed_pk_from_seed(s);
+            push(true, [&s[..], &pk[..]].concat());
+            push(true, [&s[..], &s[..]].concat());
+            push(true, [&pk[..], &s[..]].concat());
+            push(true, [&s[..], &[0u8][..]].concat());
+            push(true, [&[0u8][..], &s[..]].concat());
+            push(false, [&s[..], &pk[..]].concat());
+        }
+        for s in crate::keys::pool().secp.iter().take(6) {
+            push(false, [&[0u8][..], &s[..]].concat());
+            push(false, [&s[..], &[0u8][..]].concat());
+        }
         Box::new(v.into_iter())
     }
     fn gen(&self, c: &mut Choices) -> Case {
